@@ -689,7 +689,7 @@ func (f *FnVC) appendBuiltin(v ssa.Value, c *ssa.CallCommon, pos token.Pos) {
 	eh := f.elemHeap(sl.Elem())
 	E := f.st.get(eh)
 	n := "(s_len " + t.T + ")"
-	tsel := func(k string) string { return sSel(sSel(E, "(s_ref "+t.T+")"), sAdd("(s_off "+t.T+")", k)) }
+	tsel := func(k string) string { return sSel(sSel(E, "(s_ref "+t.T+")"), sIdx("(s_off "+t.T+")", k)) }
 	if t.Sort == "Str" {
 		n = "(slen " + t.T + ")"
 		tsel = func(k string) string { return sApp("sat", t.T, k) }
@@ -712,8 +712,12 @@ func (f *FnVC) appendBuiltin(v ssa.Value, c *ssa.CallCommon, pos token.Pos) {
 	zero := f.sorts.zeroOf(sl.Elem())
 	body := sIte(sAnd("(<= (+ "+O+" "+ln+") k)", "(< k (+ "+O+" "+ln+" "+n+"))"),
 		tsel("(- k (+ "+O+" "+ln+"))"),
-		sIte(fits, sSel(oldArr, "k"), sIte(sAnd("(<= 0 k)", "(< k "+ln+")"), sSel(oldArr, "(+ (s_off "+s.T+") k)"), zero)))
+		sIte(fits, sSel(oldArr, "k"), sIte(sAnd("(<= 0 k)", "(< k "+ln+")"), sSel(oldArr, sIdx("(s_off "+s.T+")", "k")), zero)))
 	f.qfacts = append(f.qfacts, "(forall ((k Int)) (! (= (select "+A+" k) "+body+") :pattern ((select "+A+" k))))")
+	// the old elements are preserved (consequence of the definition above, stated with idx triggers)
+	f.qfacts = append(f.qfacts, "(forall ((k Int)) (! (=> (and (<= 0 k) (< k "+ln+")) (= (select "+A+" "+sIdx(O, "k")+") (select "+oldArr+" "+sIdx("(s_off "+s.T+")", "k")+"))) :pattern ((select "+A+" "+sIdx(O, "k")+")) :pattern ((select "+oldArr+" "+sIdx("(s_off "+s.T+")", "k")+"))))")
+	// ground instance for the first appended element (gives quantified goals a term to instantiate on)
+	f.fact(sImp("(>= "+n+" 1)", sEq(sSel(A, sIdx(O, ln)), tsel("0"))))
 	f.setHeap(eh, sStore(E, R, A))
 	newcap := f.freshConst("appcap", "Int")
 	f.fact(sEq(newcap, sIte(fits, "(s_cap "+s.T+")", newcap)))
@@ -729,7 +733,7 @@ func (f *FnVC) copyBuiltin(v ssa.Value, c *ssa.CallCommon) {
 	eh := f.elemHeap(sl.Elem())
 	E := f.st.get(eh)
 	sn := "(s_len " + s.T + ")"
-	ssel := func(k string) string { return sSel(sSel(E, "(s_ref "+s.T+")"), sAdd("(s_off "+s.T+")", k)) }
+	ssel := func(k string) string { return sSel(sSel(E, "(s_ref "+s.T+")"), sIdx("(s_off "+s.T+")", k)) }
 	if s.Sort == "Str" {
 		sn = "(slen " + s.T + ")"
 		ssel = func(k string) string { return sApp("sat", s.T, k) }
